@@ -1300,3 +1300,60 @@ func PositionalRule(w *World, b *Backend, r *Result, rule string) {
 		r.Bad(rule, "positional:"+b.Role+":none", "-", "no positional parameter with a computed index found (function parameters are expected to be bound from $1 …)")
 	}
 }
+
+// BatchExitRule: how the Batch script hands its exit status to the caller.
+func BatchExitRule(w *World, batch *Backend, r *Result, rule string) {
+	// the script's exit line: %_e% is expanded when the line is read, so it must be read
+	// before (i.e. on the same line as) the endlocal that discards the variable
+	if mf := batch.X.Methods["ProgramEnd"]; mf != nil {
+		seenEndlocal := false
+		verdict, pos := "", w.Pos(mf.Fn.Pos())
+		for _, em := range mf.Emissions {
+			if em.Sink != "addEndLine" {
+				continue
+			}
+			txt := strings.ToLower(em.T.String())
+			hasExit := strings.Contains(txt, "exit /b") && strings.Contains(txt, "%_e%")
+			hasEndlocal := strings.Contains(txt, "endlocal")
+			if hasExit {
+				pos = w.Pos(em.Pos)
+				if seenEndlocal && !hasEndlocal {
+					verdict = "bad"
+				} else if verdict == "" {
+					verdict = "ok"
+				}
+			}
+			if hasEndlocal && !hasExit {
+				seenEndlocal = true
+			}
+		}
+		switch verdict {
+		case "ok":
+			r.Ok(rule, "exit:batch:status-line", pos, "the exit status variable is expanded on the line that also ends the local environment (or before it)")
+		case "bad":
+			r.Bad(rule, "exit:batch:status-line", pos, "endlocal runs on a line of its own before exit /B %_e%: the variable is discarded before the exit line is read, so the script always exits with the status the caller's environment holds (0) – a panic is reported as success")
+		default:
+			r.Bad(rule, "exit:batch:status-line", pos, "no exit line carrying the status variable found among the end lines of the Batch script")
+		}
+	}
+	// a panic inside a function: goto :end followed by exit /B only leaves the current call frame
+	if mf := batch.X.Methods["Panic"]; mf != nil {
+		frameOnly := false
+		for _, em := range batch.X.Methods["ProgramEnd"].Emissions {
+			if em.Sink == "addEndLine" && strings.Contains(strings.ToLower(em.T.String()), "exit /b") {
+				frameOnly = true
+			}
+		}
+		jumps := false
+		for _, l := range batch.LinesOf("Panic") {
+			if len(l.Batch.Gotos) > 0 {
+				jumps = true
+			}
+		}
+		if frameOnly && jumps {
+			r.Bad(rule, "exit:batch:Panic:frame", w.Pos(mf.Fn.Pos()), "panic jumps to the script's end label and leaves with exit /B, which returns from the current call frame only: a panic raised inside a function ends that function and the caller carries on after the call line")
+		} else {
+			r.Ok(rule, "exit:batch:Panic:frame", w.Pos(mf.Fn.Pos()), "panic ends the script from any call depth")
+		}
+	}
+}
